@@ -1,2 +1,333 @@
+import os, json, subprocess, time, re, shutil, struct
+import common
+
+PRIMS = {"i64": 8, "u64": 8, "f64": 8, "i32": 4, "u32": 4, "f32": 4, "bool": 1, "u8": 1, "i8": 1, "usize": 8, "isize": 8, "u16": 2, "i16": 2}
+
+
+def ensure_copy(ctx):
+    if ctx.kani_copy:
+        return ctx.kani_copy
+    dst = "/var/tmp/qrlew-verif-kani/%s" % ctx.pid
+    shutil.rmtree(dst, ignore_errors=True)
+    os.makedirs(dst, exist_ok=True)
+    subprocess.run(["rsync", "-a", "--exclude", "target", "--exclude", ".git", ctx.repo.rstrip("/") + "/", dst + "/"], check=True)
+    ctx.kani_copy = dst
+    return dst
+
+
+def split_params(s):
+    out, depth, cur = [], 0, ""
+    for ch in s:
+        if ch in "([<":
+            depth += 1
+        elif ch in ")]>":
+            depth -= 1
+        if ch == "," and depth == 0:
+            out.append(cur); cur = ""
+        else:
+            cur += ch
+    if cur.strip():
+        out.append(cur)
+    res = []
+    for p in out:
+        n, t = p.split(":", 1)
+        res.append((n.strip().replace("mut ", ""), t.strip()))
+    return res
+
+
+def parse_obs(text):
+    """//@ob <tag> k=v ... followed by `pub fn ob_name(params) -> bool`"""
+    obs = []
+    lines = text.split("\n")
+    for i, l in enumerate(lines):
+        m = re.match(r"\s*//@ob\s+(\S+)(.*)$", l)
+        if not m:
+            continue
+        tag, rest = m.group(1), m.group(2)
+        kv = dict(re.findall(r"(\w+)=(\S+)", rest))
+        sig = None
+        for k in range(i + 1, min(i + 4, len(lines))):
+            sm = re.search(r"fn\s+(ob_[A-Za-z0-9_]+)\s*\((.*?)\)\s*->\s*bool", lines[k])
+            if sm:
+                sig = sm; break
+        if not sig:
+            raise ValueError("no ob_ function after //@ob " + tag)
+        obs.append({"tag": tag, "fn": sig.group(1), "params": split_params(sig.group(2)), "kv": kv})
+    return obs
+
+
+def gen_harness(ob):
+    lets, args = [], []
+    for n, t in ob["params"]:
+        if t.startswith("&"):
+            lets.append("let %s: %s = kani::any();" % (n, t[1:].strip()))
+            args.append("&" + n)
+        else:
+            lets.append("let %s: %s = kani::any();" % (n, t))
+            args.append(n)
+    pre = ""
+    if ob["kv"].get("pre"):
+        pre = "kani::assume(%s(%s));" % (ob["kv"]["pre"], ", ".join(args))
+    unwind = "#[kani::unwind(%s)] " % ob["kv"]["unwind"] if ob["kv"].get("unwind") else ""
+    return ("#[cfg(kani)] #[kani::proof] %sfn h_%s() { %s %s kani::cover!(true, \"qx-reach\"); assert!(%s(%s), \"qx-ob\"); }"
+            % (unwind, ob["fn"], " ".join(lets), pre, ob["fn"], ", ".join(args)))
+
+
+def decode(ty, bs):
+    ty = ty.lstrip("&").strip()
+    b = bytes(bs)
+    if ty == "bool":
+        return bool(b[0])
+    if ty == "f64":
+        return {"f64_bits": "0x%016x" % struct.unpack("<Q", b)[0], "approx": repr(struct.unpack("<d", b)[0])}
+    if ty == "f32":
+        return {"f32_bits": "0x%08x" % struct.unpack("<I", b)[0]}
+    if ty in ("i64", "isize"):
+        return struct.unpack("<q", b)[0]
+    if ty in ("u64", "usize"):
+        return struct.unpack("<Q", b)[0]
+    if ty == "i32":
+        return struct.unpack("<i", b)[0]
+    if ty == "u32":
+        return struct.unpack("<I", b)[0]
+    if ty in ("u8",):
+        return b[0]
+    if ty in ("i8",):
+        return struct.unpack("<b", b)[0]
+    if ty == "u16":
+        return struct.unpack("<H", b)[0]
+    if ty == "i16":
+        return struct.unpack("<h", b)[0]
+    return list(b)
+
+
+def rust_lit(ty, v):
+    ty = ty.lstrip("&").strip()
+    if ty == "bool":
+        return "true" if v else "false"
+    if ty == "f64":
+        return "f64::from_bits(%su64)" % v["f64_bits"]
+    if ty == "f32":
+        return "f32::from_bits(%su32)" % v["f32_bits"]
+    return "(%d as %s)" % (v, ty) if ty not in ("i64",) else ("(%di128 as i64)" % v)
+
+
+def flat_types(params):
+    """expand [T; N] parameters into N scalars (kani::any for arrays draws element by element)"""
+    out = []
+    for n, t in params:
+        t0 = t.lstrip("&").strip()
+        m = re.match(r"\[\s*(\w+)\s*;\s*(\d+)\s*\]$", t0)
+        if m:
+            out.append((n, t0, [m.group(1)] * int(m.group(2))))
+        else:
+            out.append((n, t0, None))
+    return out
+
+
+def parse_playback(out, ob):
+    """concrete values of the failing assertion (or panic) from --concrete-playback=print"""
+    blocks = re.findall(r"```\n(.*?)```", out, re.S)
+    best = None
+    for b in blocks:
+        if "Check for `cover`" in b:
+            continue
+        best = b
+        break
+    if best is None:
+        return None
+    vecs = re.findall(r"vec!\[([0-9,\s]*)\],", best)
+    vals = [[int(x) for x in v.replace(" ", "").split(",") if x != ""] for v in vecs]
+    res, k = {}, 0
+    try:
+        for n, t, arr in flat_types(ob["params"]):
+            if arr:
+                res[n] = []
+                for et in arr:
+                    res[n].append(decode(et, vals[k])); k += 1
+            else:
+                res[n] = decode(t, vals[k]); k += 1
+    except Exception:
+        return None
+    return res
+
+
+def native_replay(ctx, wd, module_text, ob, cex):
+    """Run the extracted real kernel natively on the counterexample (debug profile semantics)."""
+    args = []
+    for n, t, arr in flat_types(ob["params"]):
+        if arr:
+            lit = "[" + ", ".join(rust_lit(et, v) for et, v in zip(arr, cex[n])) + "]"
+        else:
+            lit = rust_lit(t, cex[n])
+        args.append(("&" if dict(ob["params"])[n].startswith("&") else "") + lit)
+    pre = ""
+    if ob["kv"].get("pre"):
+        pre = "if !%s(%s) { println!(\"QX-REPLAY precondition-false\"); return; }" % (ob["kv"]["pre"], ", ".join(args))
+    main = """
+fn main() {
+    %s
+    let r = std::panic::catch_unwind(|| %s(%s));
+    match r { Ok(true) => println!("QX-REPLAY holds"), Ok(false) => println!("QX-REPLAY violated"), Err(_) => println!("QX-REPLAY panicked") }
+}
+""" % (pre, ob["fn"], ", ".join(args))
+    src = os.path.join(wd, "replay_%s.rs" % ob["fn"])
+    open(src, "w").write("#![allow(warnings)]\n" + module_text + main)
+    exe = os.path.join(wd, "replay_%s.bin" % ob["fn"])
+    p = subprocess.run(["rustc", "--edition", "2021", "-C", "overflow-checks=on", "-C", "debug-assertions=on", "-o", exe, src],
+                       capture_output=True, text=True)
+    if p.returncode != 0:
+        return None, "replay build failed: " + p.stderr[-400:]
+    p = subprocess.run([exe], capture_output=True, text=True, timeout=60)
+    m = re.search(r"QX-REPLAY (\S+)", p.stdout)
+    return (m.group(1) if m else None), (p.stdout + p.stderr)[-600:]
+
+
+def kani_cmd(harnesses, extra, jobs):
+    cmd = ["cargo", "kani", "--output-format", "terse", "-Z", "function-contracts", "-Z", "stubbing"]
+    if jobs > 1:
+        cmd += ["-j", str(jobs)]
+    for h in harnesses:
+        cmd += ["--harness", h]
+    return cmd + extra
+
+
+def parse_results(out):
+    """per-harness result blocks of `--output-format terse` (with or without -j)"""
+    res = {}
+    cur_by_thread = {}
+    cur = None
+    lines = out.split("\n")
+    block = {}
+    for l in lines:
+        m = re.match(r"(?:Thread (\d+): )?Checking harness (\S+?)\.\.\.", l)
+        if m:
+            th = m.group(1) or "0"
+            name = m.group(2).split("::")[-1]
+            cur_by_thread[th] = name
+            res[name] = {"status": None, "failed_checks": [], "cover": None, "time": None, "raw": []}
+            cur = name if m.group(1) is None else cur
+            continue
+        m = re.match(r"Thread (\d+):\s*$", l)
+        if m:
+            cur = cur_by_thread.get(m.group(1))
+            continue
+        if cur is None or cur not in res:
+            continue
+        r = res[cur]
+        r["raw"].append(l)
+        if l.startswith("VERIFICATION:- "):
+            r["status"] = l.split(":- ")[1].strip()
+        elif l.startswith("Failed Checks:"):
+            r["failed_checks"].append(l[len("Failed Checks:"):].strip())
+        elif "cover properties satisfied" in l:
+            m2 = re.search(r"(\d+) of (\d+) cover", l)
+            if m2:
+                r["cover"] = (int(m2.group(1)), int(m2.group(2)))
+        elif l.startswith("Verification Time:"):
+            try:
+                r["time"] = float(l.split(":")[1].strip().rstrip("s"))
+            except Exception:
+                pass
+    return res
+
+
 def run(ctx, uname, u):
-    raise SystemExit("kani engine not implemented yet")
+    t0 = time.time()
+    wd = os.path.join(ctx.work, uname)
+    os.makedirs(wd, exist_ok=True)
+    res = {"unit": uname, "engine": "kani", "status": "ok", "obligations": 0, "discharged": 0, "failures": [],
+           "functions": [], "trusted": [], "samples": [], "bounded": [], "back_end": "kani 0.68.0 / cbmc 6.11 (cadical)"}
+    gen = os.path.join(wd, uname + ".rs")
+    rep = os.path.join(wd, uname + ".qx.json")
+    p = subprocess.run([ctx.qx(), ctx.repo, os.path.join(ctx.here, u["template"]), gen, rep], capture_output=True, text=True)
+    if p.returncode != 0:
+        res["status"] = "undecided"
+        res["undecided_reason"] = "extraction: " + p.stderr.strip().replace("\n", " | ")[:600]
+        return res
+    report = json.load(open(rep))
+    text = open(gen).read()
+    try:
+        obs = parse_obs(text)
+    except ValueError as e:
+        res["status"] = "undecided"; res["undecided_reason"] = str(e); return res
+    obs = [o for o in obs if not (ctx.tier == "quick" and o["kv"].get("tier") == "thorough")]
+    module_text = text
+    harness_text = "\n".join(gen_harness(o) for o in obs)
+    copy = ensure_copy(ctx)
+    modname = "qx_verif_" + uname
+    if u.get("append_to"):
+        tgt = os.path.join(copy, u["append_to"])
+        open(tgt, "a").write("\n#[cfg(kani)]\nmod %s {\n    use super::*;\n%s\n%s\n}\n" % (modname, text, harness_text))
+    else:
+        open(os.path.join(copy, "src", modname + ".rs"), "w").write("#![allow(warnings)]\n" + text + "\n" + harness_text + "\n")
+        open(os.path.join(copy, "src", "lib.rs"), "a").write("\n#[cfg(kani)]\nmod %s;\n" % modname)
+    env = dict(os.environ, CARGO_NET_OFFLINE="true", CARGO_TARGET_DIR=os.path.join(ctx.here, ".work", "kani-target"))
+    names = ["h_" + o["fn"] for o in obs]
+    jobs = int(u.get("jobs", 8))
+    timeout = int(u.get("timeout_thorough" if ctx.tier == "thorough" else "timeout", 900))
+    cmd = kani_cmd(names, u.get("kani_args", []), jobs)
+    res["checker_cmd"] = "qx %s -> %s (installed under cfg(kani) in a throw-away copy of /repo) ; CARGO_NET_OFFLINE=true %s" % (
+        u["template"], os.path.relpath(gen, ctx.here), " ".join(cmd[:8]) + " --harness <%d harnesses>" % len(names))
+    try:
+        p = subprocess.run(cmd, cwd=copy, env=env, capture_output=True, text=True, timeout=timeout)
+    except subprocess.TimeoutExpired:
+        res["status"] = "undecided"; res["undecided_reason"] = "cargo kani timeout (%ds)" % timeout; return res
+    out = p.stdout + "\n" + p.stderr
+    open(os.path.join(wd, "kani.log"), "w").write(re.sub(r"warning: linker stdout:.*\n", "", out))
+    results = parse_results(out)
+    if not results:
+        res["status"] = "undecided"
+        errs = [l for l in out.split("\n") if l.startswith("error")]
+        res["undecided_reason"] = "cargo kani produced no harness result: " + " | ".join(errs[:4])[:600]
+        return res
+    for o in obs:
+        h = "h_" + o["fn"]
+        r = results.get(h)
+        kind = o["kv"].get("kind", "complete")
+        props = o["tag"].split(":")[0].split(",") if ":" in o["tag"] else None
+        if r is None or r["status"] is None:
+            res["status"] = "undecided"
+            res["undecided_reason"] = "no verdict for harness %s (solver limit or crash)" % h
+            continue
+        if r["cover"] is not None and r["cover"][0] < r["cover"][1]:
+            res["status"] = "undecided"
+            res["undecided_reason"] = "harness %s: precondition unreachable (vacuous)" % h
+            continue
+        entry = {"obligation": o["tag"], "harness": h, "kind": kind, "cbmc_s": r["time"]}
+        if kind == "bounded":
+            entry["bound"] = "unwind=%s" % o["kv"].get("unwind")
+            res["bounded"].append(entry)
+        else:
+            res["obligations"] += 1
+        if r["status"] == "SUCCESSFUL":
+            if kind != "bounded":
+                res["discharged"] += 1
+            if len(res["samples"]) < 4:
+                res["samples"].append({"unit": uname, "obligation": o["tag"], "harness": "%s(%s)" % (o["fn"], ", ".join("%s: %s" % p_ for p_ in o["params"])), "domain": "full machine domain via kani::any" if kind == "complete" else entry.get("bound")})
+            continue
+        # FAILED: counterexample + native replay on the extracted real kernel
+        cex, replayed, detail = None, False, "\n".join(r["raw"][-25:])
+        try:
+            cmd2 = kani_cmd([h], u.get("kani_args", []) + ["-Z", "concrete-playback", "--concrete-playback=print"], 1)
+            p2 = subprocess.run(cmd2, cwd=copy, env=env, capture_output=True, text=True, timeout=timeout)
+            cex = parse_playback(p2.stdout + p2.stderr, o)
+        except Exception as e:
+            detail += "\n(playback failed: %s)" % e
+        if cex is not None and not u.get("append_to"):
+            verdict, log = native_replay(ctx, wd, module_text, o, cex)
+            replayed = verdict in ("violated", "panicked")
+            detail += "\nnative replay of the extracted kernel on the counterexample: %s" % verdict
+        elif cex is not None:
+            replayed = None  # needs the crate: replay through the replay crate if configured
+        res["failures"].append({"obligation": o["tag"], "props": props, "message": "; ".join(r["failed_checks"]) or "verification failed",
+                                "item": o["fn"], "detail": detail[-3000:], "counterexample": cex, "replayed": replayed,
+                                "replay": {"kind": "kernel", "unit": uname, "fn": o["fn"]} if not u.get("append_to") else u.get("replay")})
+    for it in report["items"]:
+        if it["kind"] in ("fn", "fragment"):
+            res["functions"].append({"file": it["file"], "item": "%s::%s%s" % (it.get("impl"), it["name"], (" [" + it["fragment"] + "]") if it.get("fragment") else ""),
+                                     "lines": it["src_lines"], "sha256": it["sha256"], "rewrites": it["rewrites"], "engine": "kani"})
+    rewrites = sorted(set(rw for it in report["items"] for rw in it["rewrites"]))
+    res["trusted"] = ["%s: extraction rewrite %s" % (uname, rw) for rw in rewrites] + u.get("trusted", [])
+    res["time_s"] = round(time.time() - t0, 2)
+    return res
